@@ -168,7 +168,7 @@ func runC01(c *Ctx) {
 		// which the rest of the message is empty (in the strategy, or in the helper that reads the message)
 		consumed := msgEmptyEdges(fn)
 		if helperPassword != nil {
-			consumed = nil
+			// the test may stay in the strategy while a helper reads the message, or move into the helper
 			for _, ci := range core.Calls(fn) {
 				if call, ok := ci.(*ssa.Call); ok && resultOf(call, 0) == helperPassword || ok && resultOf(call, 1) == helperPassword {
 					if h := core.StaticCallee(call); h != nil {
@@ -180,7 +180,7 @@ func runC01(c *Ctx) {
 							}
 						}
 						if allDom {
-							consumed = nilEdges(errResultOf(call), true) // established inside the helper on every successful return
+							consumed = append(consumed, nilEdges(errResultOf(call), true)...) // established inside the helper on every successful return
 						}
 					}
 				}
